@@ -489,6 +489,9 @@ func (Implementation) Drotm(n int, x []float64, incX int, y []float64, incY int,
 	if incY == 0 {
 		panic(zeroIncY)
 	}
+	if p.Flag < blas.Identity || blas.Diagonal < p.Flag {
+		panic(badFlag)
+	}
 	if n <= 0 {
 		if n == 0 {
 			return
@@ -502,9 +505,6 @@ func (Implementation) Drotm(n int, x []float64, incX int, y []float64, incY int,
 		panic(shortY)
 	}
 
-	if p.Flag < blas.Identity || blas.Diagonal < p.Flag {
-		panic(badFlag)
-	}
 	if p.Flag == blas.Identity {
 		return
 	}
